@@ -116,6 +116,10 @@ func (g G) drawIDP(o worldOpts) IDPCfg {
 			c.IssuerKind, c.Issuer = "forwarded", g.pick("idp.fwdpath", "", "/saml", "idp")
 		case 3:
 			c.IssuerKind, c.Issuer, c.Headers = "header", g.pick("idp.hdrpath", "", "/saml"), []string{"X-Zitadel-Forwarded"}
+			if g.chance("idp.hdr2", 50) {
+				// two configured header names: the first one that yields a host wins (configured order)
+				c.Headers = []string{"X-Zitadel-Forwarded", "X-Edge-Forwarded"}
+			}
 		case 4:
 			c.Insecure = true
 			c.Issuer = g.pick("idp.insecure", "http://idp.example", "http://localhost:8080/saml")
@@ -327,6 +331,7 @@ func (g G) drawWorld(o worldOpts) WorldCfg {
 		w.SharedSP = g.chance("sharedSP", 50)
 	}
 	w.NilUnknown = g.chance("nilUnknown", o.nilUnknownPct)
+	w.Neighbours = g.chance("neighbours", 30)
 	w.CtxAware = g.chance("ctxAware", 35)
 	w.TenantKeys = g.chance("tenantKeys", 35)
 	return w
